@@ -668,7 +668,7 @@ func c18(x *mon.Ctx) {
 	x.Require("default-opts-independent", 0, 0, 1)
 	x.Require("no-event-log/verify-fault", 0, 40, 40)
 	x.Require("no-event-log/policy-mismatch", 0, 12, 12)
-	x.Require("default-opts-nonce-buffer-reused", 1, 3, 5)
+	x.Require("default-opts-nonce-buffer-reused", 1, 1, 5)
 	x.Require("extended-log/rtmr3-bitflip", 0, 3*48, 3*48)
 	x.Require("verify-fault", 0, 75, 75)
 	x.Require("policy-mismatch", 0, 30, 30)
